@@ -176,6 +176,13 @@ class IntervalInterp:
             self.block(s.body, env)
         elif isinstance(s, ast.FunctionDef):
             self.local_funcs[s.name] = s      # a closure: interpreted where it is called, reading the enclosing values
+        elif not isinstance(s, (ast.Pass, ast.Import, ast.ImportFrom, ast.Global, ast.Nonlocal, ast.Assert, ast.Delete, ast.Break, ast.Continue, ast.ClassDef, ast.AnnAssign)):
+            # a statement form this analysis does not model: whatever it may assign is unknown from here on
+            for sub in ast.walk(s):
+                if isinstance(sub, ast.Name) and isinstance(sub.ctx, ast.Store):
+                    env[sub.id] = AV(opaque=True)
+        elif isinstance(s, ast.AnnAssign) and s.value is not None:
+            self.bind(s.target, self.ev(s.value, env), env)
 
     def _none_test(self, test, env):
         """`x is None` / `x is not None` for a local known to hold None (an option left at its None default)"""
